@@ -57,7 +57,7 @@ func c13Task(r *core.Rng, tier string) core.TaskSpec {
 	t := core.TaskSpec{Kind: "writer", W: w}
 	if r.Chance(1, 3) {
 		t.Kind = "reader"
-		t.SourceKind = []string{"rs", "rsb", "rsx"}[r.Intn(3)]
+		t.SourceKind = []string{"rs", "rsb", "rsx", "rsf"}[r.Intn(4)]
 	} else if r.Chance(1, 2) {
 		t.SinkKind = "wx"
 	}
